@@ -21,7 +21,7 @@
               1 value returned, 2 declared exception, 4 undeclared error -> INTERNAL_ERROR, 8 TApplicationException passed on,
               16 oneway without reply, 32 oneway with an error reply, 64 unknown method, 128 reply rejected (name / type),
               256 inherited method, 512 RESPONSE_TOO_LARGE mapping, 1024 byte-level replay of request and reply,
-              2048 reply not delivered (timeout). *)
+              2048 reply not delivered (timeout), 4096 arguments refused by the generated Write (nothing sent). *)
 From Coq Require Import ZArith List Bool.
 From FV Require Import Base.Res Base.Bytes Model.Headers Model.Receivers Model.ThriftBin Model.GenCall
      Judge.Wire Judge.JThriftBin.
@@ -110,7 +110,7 @@ Definition branch_tag (e : env) (m : method) (own : bool) (o : houtcome) (c : co
    | HOther _ => 4
    end)
   + (if own then 0 else 256)
-  + (match c with CTimeout => 2048 | _ => 0 end).
+  + (match c with CTimeout => 2048 | CErr _ => 4096 | _ => 0 end).
 
 Definition judge_call (e : env) (ss : services) (c : tok) : Z :=
   let f := as_list c in
